@@ -341,3 +341,30 @@ package netceptor
 //@   site mapupdate map[string]string@3 COPY: [C01] requires themap != prev && key == k && value == v
 //@   site mapupdate Netceptor.routingTable NEXTHOP: [C01] requires key == dest && value == p && prev[p] == s.nodeID && (dest in s.knownConnectionCosts)
 //@   site store Netceptor.routingPathCosts COSTS: [C01] requires value == cost
+
+// ---- C01/C07: per-connection reader and writer goroutines
+
+//@ monitor (ci *connInfo) lastReceivedLock
+//@   protects lastReceivedData
+
+//@ iface BackendSession.Recv
+//@   params sess, timeout
+//@   modifies nothing
+//@ iface BackendSession.Send
+//@   params sess, data
+//@   modifies nothing
+//@ iface BackendSession.Close
+//@   params sess
+//@   modifies nothing
+
+//@ func (*connInfo).protoReader
+//@   tags C01 C07
+//@   safety
+//@   requires ci != nil && sess != nil && ci.Context != nil && ci.lastReceivedLock != nil && ci.CancelFunc != nil
+//@   site store connInfo.lastReceivedData RECEIVED: [C01] requires err == nil && base == ci
+
+//@ func (*connInfo).protoWriter
+//@   tags C01 C07
+//@   safety
+//@   requires ci != nil && sess != nil && ci.Context != nil && ci.CancelFunc != nil
+//@   modifies nothing
